@@ -75,7 +75,7 @@ MaxOffers == Len(SubjSeq)
 FlowSeq == <<"f1", "f2", "f3">>
 FlowSet == {FlowSeq[i] : i \in 1..MaxOffers}
 AllShapes == {"own", "audX", "badtyp", "forgeW", "wrongtype", "noproof", "nonstr"}
-AllChecks == {"proof", "sig", "signer", "aud", "typ", "nonce", "nonceflow", "ctype", "exp", "burncode", "htype", "hverify"}
+AllChecks == {"proof", "sig", "signer", "aud", "typ", "nonce", "nonceflow", "ctype", "exp", "burncode", "htype", "hverify", "mdid"}
 
 JunkId   == [f |-> "junk", k |-> 0]        \* a value the issuer never handed out
 NonStr   == [f |-> "nonstr", k |-> 0]      \* nonce claim that is not a JSON string
@@ -88,7 +88,9 @@ RogueCreds == {[f |-> "ext", subj |-> "A", typ |-> "T1", valid |-> TRUE],
                [f |-> "ext", subj |-> "W", typ |-> "T1", valid |-> FALSE],
                [f |-> "ext", subj |-> "W", typ |-> "T1", valid |-> TRUE]}
 IdleReq == [st |-> "idle", code |-> "junk", tok |-> JunkId, non |-> JunkId]
-IdleW   == [pc |-> "idle", o |-> [to |-> "W", iss |-> "I", code |-> "junk", typ |-> "T1"], tok |-> JunkId, non |-> JunkId]
+\* an offer: to = addressee, iss = the issuer whose endpoints it names, claim = the credential_issuer the metadata served
+\* at those endpoints CLAIMS to be (the honest issuer tells the truth; the rogue issuer may claim to be "I")
+IdleW   == [pc |-> "idle", o |-> [to |-> "W", iss |-> "I", claim |-> "I", code |-> "junk", typ |-> "T1"], tok |-> JunkId, non |-> JunkId]
 
 VARIABLES
     off,               \* checks switched off in this behaviour (constant after Init)
@@ -148,7 +150,7 @@ NextNon(f)   == [f |-> f, k |-> nnon[f] + 1]
 OfferTo(s) ==
     /\ nflows < MaxOffers
     /\ LET f == FlowSeq[nflows + 1]
-           o == [to |-> s, iss |-> "I", code |-> f, typ |-> "T1"] IN
+           o == [to |-> s, iss |-> "I", claim |-> "I", code |-> f, typ |-> "T1"] IN
        /\ nflows' = nflows + 1
        /\ flows' = [flows EXCEPT ![f] = [subj |-> s, exp |-> now + TTL, st |-> "live"]]
        /\ codes' = codes \cup {f}
@@ -167,10 +169,11 @@ Recv(o) ==
     /\ w.pc = "idle" /\ wruns < MaxWRuns
     /\ o \in offers /\ o.to = "W"
     /\ Replay \/ o \notin handled
-    /\ w' = [IdleW EXCEPT !.pc = "token", !.o = o]
+    \* openid4vci.NewIssuerAPIClient: the identifier in the metadata must be the identifier the offer names
+    /\ w' = IF Chk("mdid") /\ o.claim # o.iss THEN IdleW ELSE [IdleW EXCEPT !.pc = "token", !.o = o]
     /\ wruns' = wruns + 1
     /\ handled' = handled \cup {o}
-    /\ Log([a |-> "Recv", o |-> o, again |-> o \in handled])
+    /\ Log([a |-> "Recv", o |-> o, again |-> o \in handled, abort |-> (Chk("mdid") /\ o.claim # o.iss)])
     /\ UNCHANGED <<off, now, nflows, flows, codes, toks, nons, ntok, nnon, tr, offers, stored,
                    kcodes, ktoks, knons, kproofs, acreds, asteps, minted, issuedN, releases, redeemed, panics, cover>>
 
@@ -290,7 +293,7 @@ HolderAccepts(c, otyp) == /\ c # NoCred
                           /\ HolderChecksSubject => c.subj = "W"
 
 \* the honest wallet requests the credential from the honest issuer; obs: the attacker learns the served request
-WProof == Proof("W", TRUE, "I", TRUE, w.non)
+WProof == Proof("W", TRUE, w.o.claim, TRUE, w.non)          \* audience = credential_issuer of the metadata (retrieveCredential)
 WCredO(lost, out) ==
     /\ w.pc = "cred" /\ w.o.iss = "I"
     /\ lost => DropAllowed
@@ -351,19 +354,20 @@ AReplay(t, p) ==
 (* The attacker sends "W" an offer of his own making: naming the honest    *)
 (* issuer with a code he knows (or junk), or naming his rogue issuer "X".  *)
 (***************************************************************************)
-ForgeDo(iss, c, typ) ==
+ForgeDo(iss, claim, c, typ) ==
     /\ asteps < MaxAtt /\ asteps' = asteps + 1
-    /\ LET o == [to |-> "W", iss |-> iss, code |-> c, typ |-> typ] IN
+    /\ LET o == [to |-> "W", iss |-> iss, claim |-> claim, code |-> c, typ |-> typ] IN
        /\ o \notin offers
        /\ offers' = offers \cup {o}
        /\ Log([a |-> "Forge", o |-> o])
     /\ UNCHANGED <<off, now, nflows, flows, codes, toks, nons, ntok, nnon, tr, w, wruns, handled, stored,
                    kcodes, ktoks, knons, kproofs, acreds, minted, issuedN, releases, redeemed, panics, cover>>
 
-Forge(iss, c, typ) ==
+Forge(iss, claim, c, typ) ==
     /\ iss \in {"I", "X"} /\ (iss = "X" => RogueIssuer /\ c = "junk")
+    /\ claim \in {"I", "X"} /\ (iss = "I" => claim = "I")         \* the honest issuer's metadata is not his to change
     /\ c \in kcodes \cup {"junk"} /\ typ \in {"T1", "T2"}
-    /\ ForgeDo(iss, c, typ)
+    /\ ForgeDo(iss, claim, c, typ)
 
 \* "W" asks the rogue issuer for a token: the attacker answers with a c_nonce of his choice
 WTokXDo(n) ==
@@ -379,7 +383,7 @@ WTokX(n) == n \in knons \cup {JunkId} /\ WTokXDo(n)
 WCredX(c) ==
     /\ w.pc = "cred" /\ w.o.iss = "X"
     /\ c \in RogueCreds \cup {NoCred}
-    /\ LET p == Proof("W", TRUE, "X", TRUE, w.non) IN
+    /\ LET p == WProof IN
        /\ kproofs' = kproofs \cup {p}
        /\ stored' = IF HolderAccepts(c, w.o.typ) THEN stored \cup {StoredRec(c, w.o.typ)} ELSE stored
        /\ Cover(<<"wcredx", c.subj, c.typ, B(c.valid), w.o.typ>>)
@@ -408,7 +412,7 @@ Next ==
     \/ \E lost \in BOOLEAN : WCred(lost)
     \/ \E t \in ktoks \cup {JunkId}, sh \in Shapes, n \in knons \cup {JunkId} : ACred(t, sh, n)
     \/ \E t \in ktoks \cup {JunkId}, p \in kproofs : AReplay(t, p)
-    \/ \E iss \in {"I", "X"}, c \in FlowSet \cup {"junk"}, typ \in {"T1", "T2"} : Forge(iss, c, typ)
+    \/ \E iss, claim \in {"I", "X"}, c \in FlowSet \cup {"junk"}, typ \in {"T1", "T2"} : Forge(iss, claim, c, typ)
     \/ \E n \in knons \cup {JunkId} : WTokX(n)
     \/ \E c \in RogueCreds \cup {NoCred} : WCredX(c)
     \/ Tick
